@@ -17,11 +17,14 @@ import (
 
 // Net is one two-party network.
 type Net struct {
-	mu     sync.Mutex
-	cond   *sync.Cond
-	active int // endpoint goroutines that are currently runnable
-	A, B   *End
-	Steps  int
+	mu   sync.Mutex
+	cond *sync.Cond
+	// Spinning: an endpoint computed for longer than computeLimit without touching the network;
+	// Run then gives up and reports the horizon as hit
+	Spinning bool
+	active   int // endpoint goroutines that are currently runnable
+	A, B     *End
+	Steps    int
 }
 
 // End is one side of the network: a net.Conn plus the script that drives it.
@@ -191,10 +194,24 @@ func (n *Net) EOF(to *End) {
 
 // waitQuiescent blocks until no endpoint goroutine is runnable. It returns false if the step
 // budget of the run is exhausted (an endpoint that never blocks).
+// computeLimit: an endpoint that keeps computing for this long between two network events is
+// taken to be looping (no step of a handshake or record needs more than milliseconds; the limit is
+// four orders of magnitude above that so that machine load cannot reach it).
+const computeLimit = 90 * time.Second
+
 func (n *Net) waitQuiescent() {
 	n.mu.Lock()
-	for n.active > 0 {
-		n.cond.Wait()
+	if n.active > 0 && !n.Spinning {
+		t := time.AfterFunc(computeLimit, func() {
+			n.mu.Lock()
+			n.Spinning = true
+			n.cond.Broadcast()
+			n.mu.Unlock()
+		})
+		for n.active > 0 && !n.Spinning {
+			n.cond.Wait()
+		}
+		t.Stop()
 	}
 	n.mu.Unlock()
 }
@@ -205,6 +222,9 @@ func (n *Net) Run(p Policy, maxSteps int) (horizonHit bool) {
 	idx := map[*End]int{}
 	for n.Steps = 0; n.Steps < maxSteps; n.Steps++ {
 		n.waitQuiescent()
+		if n.spinning() {
+			return true
+		}
 		moved := false
 		for _, e := range []*End{n.A, n.B} {
 			n.mu.Lock()
@@ -257,6 +277,9 @@ func (n *Net) Run(p Policy, maxSteps int) (horizonHit bool) {
 		}
 		// both have EOF and still do not finish: they are blocked forever
 		n.waitQuiescent()
+		if n.spinning() {
+			return true
+		}
 		if n.A.Done && n.B.Done {
 			return false
 		}
@@ -277,6 +300,12 @@ func (n *Net) Stuck() []string {
 }
 
 // Abort force-closes both ends so that leaked goroutines terminate.
+func (n *Net) spinning() bool {
+	n.mu.Lock()
+	defer n.mu.Unlock()
+	return n.Spinning
+}
+
 func (n *Net) Abort() {
 	n.mu.Lock()
 	n.A.closed, n.B.closed = true, true
